@@ -80,6 +80,41 @@ def run(ctx):
         ctx.note(f'C12-R2: analyze_order consults ordered_pk_ids/find_sort_key_id: {uses} (two column-level PRIMARY KEYs are rejected '
                  f'by the binder today, so the first is_primary() column is the only key)')
 
+    R4 = 'C12-R4'
+    ORDER_SOURCES = {   # operator -> why its output order may be claimed (confirmed by reading the executor; one line each)
+        'List': 'not an operator: the key list itself',
+        'Scan': 'primary-key order of a disk scan, gated by table_is_sorted_by_primary_key (see R1)',
+        'Order': 'OrderExecutor sorts by these keys',
+        'TopN': 'TopNExecutor emits its heap in key order',
+        'Proj': 'ProjectionExecutor maps each chunk of its child in place',
+        'Filter': 'FilterExecutor keeps a subsequence of each chunk',
+        'Window': 'WindowExecutor appends columns to each chunk in place',
+        'Limit': 'LimitExecutor emits a contiguous slice of its child\'s stream',
+        'MergeJoin': 'MergeJoinExecutor walks both inputs in key order and emits matches (and padded rows) in that order',
+        'SortAgg': 'SortAggExecutor emits one row per run of equal keys, in the child\'s order',
+    }
+    ctx.rule(R4, 'analyze_order claims an output order only for operators whose executor was confirmed to keep or create it '
+                 f'({", ".join(sorted(ORDER_SOURCES))}); every other operator must fall into the default (unordered) arm. The '
+                 'useless-order rule deletes an ORDER BY on the strength of this claim (a hash join, for one, emits its unmatched '
+                 'build rows after the probe side)')
+    ao_b = prog.body('planner::rules::order::analyze_order')
+    if ctx.anchor(R4, 'planner::rules::order::analyze_order', ao_b is not None):
+        ctx.functions_analysed.add(ao_b.name)
+        sw = [(i, bl['term']) for i, bl in enumerate(ao_b.blocks) if bl['term']['k'] == 'switch' and bl['term'].get('adt') == 'planner::Expr']
+        if ctx.anchor(R4, 'analyze_order: match on the plan node', sw):
+            claimed = set()
+            for i, t in sw:
+                names = t.get('variants', {})
+                for v, tgt in t['targets']:
+                    if tgt != t.get('otherwise'):
+                        claimed.add(names.get(str(v), str(v)))
+            ctx.floor(R4, len(claimed), 8, 'operators for which analyze_order claims an order')
+            for v in sorted(claimed):
+                ctx.ob(R4, f'analyze_order·{v}', v in ORDER_SOURCES,
+                       f'{v}: ' + (ORDER_SOURCES.get(v) or 'no confirmed reason why this operator\'s output is ordered'), [ao_b.loc],
+                       what=f'analyze_order claims that `{v}` passes an order through, which no executor reading supports: '
+                            f'useless-order then drops an ORDER BY above it')
+
     R3 = 'C12-R3'
     ctx.rule(R3, 'LIMIT/OFFSET: every batch taken from the child is counted: on every path from receiving a batch to asking for the '
                  'next one the row counter is advanced')
